@@ -1,7 +1,7 @@
 HOOKS = {
     "guard": "CELERITAS_VERIF_HOOKS",
     "enable": "harness/CMakeLists.txt adds -DCELERITAS_VERIF_HOOKS=1 and builds /repo's working tree via add_subdirectory into /verif/build/rel",
-    "baseline_off_cmd": "cmake --build /repo/_build -j16 && ctest --test-dir /repo/_build -j8 --timeout 900",
+    "baseline_off_cmd": "cmake --build /repo/_build -j16 -- -k 0; ctest --test-dir /repo/_build -j8 --timeout 900",
     "source_commits": [],
     "add_only": True,
 }
@@ -63,5 +63,11 @@ CHECKS = {
         "technique": "TLC enumerates every history of Run/Abort+reset/WarmUp operations (Histories.tla, with the leftover-state model CleanBeforeRun); each history is replayed on one real Stepper state by harness/vhist under cycled re-indexing orders / action_times / status checker; TLC trace validation (HistoriesTrace.tla) requires bit-identical per-track step streams for equal (event, primaries, slots, layout, physics) keys",
         "text": "All operation sequences of length 2 (quick) / 3 (thorough) over 3 events x 3 abort points are executed on real Stepper states with 1-32 slots, both slot layouts, mean/fluctuating loss; every completed event is compared token by token (all StepSelection::all() fields, bit patterns) with the first observation of the same key made under a different history or configuration; a rejection names the first differing step.",
         "note": "Trusted: TLC; the interning of bit patterns in harness/vhist.cc (one table per process; equal keys are always executed in the same process). Thread-order independence is C07's half. The hand-built problem has no field/MSC/looping leftovers.",
+    },
+    "C07": {
+        "engine": "tlc", "level": "model_checking", "design_ref": "DESIGN.md 4.3, 5 C07",
+        "technique": "TLA+ model of stream threads (Streams.tla: call-level program + access-level lazy initialisers, vector-clock happens-before race detector, per-stream slot discipline) model-checked by TLC for 3 threads with as-coded / shared-slot mutants refuted as vacuity guards; TLC-generated call-level schedules replayed under a baton by harness/vstreams on real std::threads sharing one CoreParams, free-running phases, all validated by TLC for bit-exact serial equivalence (HistoriesTrace.tla); ThreadSanitizer build as recorder of access-level Race events",
+        "text": "Every per-event step stream and the ActionDiagnostic totals obtained with 2-16 concurrent streams (baton-replayed TLC schedules and free-running, shuffled event->stream assignments, diagnostics and status checker on/off, 1-8 slots) are compared token by token with the single-stream serial reference; the same free-running phases run on a -fsanitize=thread build and any data-race report with a celeritas frame is a violation. F-MT-1 and F-MT-2 (unsynchronised lazy initialisation in ActionDiagnostic and StatusChecker) were found by this check and repaired.",
+        "note": "Trusted: TLC; ThreadSanitizer (gcc 12, OpenMP off in that variant) as event recorder -- it only sees races exposed by executed schedules; the baton serialises Stepper calls (construction, each step), not individual memory accesses. Event-level parallelism only in this build (one Stepper per thread).",
     },
 }
